@@ -779,7 +779,9 @@ class Lexer:
             msg,
             token=ErrorToken(
                 type_=TokenType.ERROR,
-                index=self.pos,
+                # Keep the error position inside the source text, even if we've
+                # reached the end of input.
+                index=max(min(self.pos, len(self.source) - 1), 0),
                 value=self.source[self.start : self.pos],
                 markup_start=self.markup_start,
                 markup_stop=self.pos,
